@@ -21,8 +21,11 @@ Conventions
 * an instruction the typed `Instr` cannot express is `Instr.bad <its exact wire text>`;
 * the loop stack keeps the `None` markers of `Context._suspend_loops`.
 
-What is NOT modelled: Python's recursion limit (a text nested about a thousand levels deep makes
-the real parser raise `RecursionError`); `str.isdecimal`/`\d` on non-ASCII digits.
+What is NOT modelled: Python's recursion limit — a text nested a few hundred levels deep
+(`'if 1 ' * 330 + 'hue 5'`, a thousand parentheses) makes `Parser.parse` hit `RecursionError`,
+which it now reports as `Line n: Too many nested levels.`; the model accepts such a text.  The
+depth at which this happens depends on the caller's stack, not on the text alone.  Also not
+modelled: `str.isdecimal`/`\d` on non-ASCII digits.
 -/
 namespace Bardolph.ParseTok
 open Bardolph
